@@ -1770,10 +1770,21 @@ def run_stop_rules(ctx, n_runs):
             cls = CPRegressor if name == "cpreg" else TuckerRegressor
             entry = "tensorly.regression." + cls.__name__ + ".fit"
 
+            reg_objs = {}
+
             def call(tol_, nmax_):
                 est = cls(2 if name == "cpreg" else [2] * len(dims), tol=tol_, reg_W=reg, n_iter_max=nmax_, random_state=seed, verbose=0)
                 o = C.call_impl(est.fit, X.copy(), y.copy())
-                return o if o[0] != "ok" else ("ok", [float(v) for v in est.norm_W_], int(est.n_iterations_))
+                if o[0] != "ok":
+                    return o
+                # ridge objective of the RETURNED weights: ||y - <X, W>||^2 + reg (sum_j ||W_j||^2 [+ ||G||^2])
+                if name == "cpreg":
+                    pen = sum(float(np.sum(np.asarray(f) ** 2)) for f in est.cp_weight_[1])
+                else:
+                    pen = sum(float(np.sum(np.asarray(f) ** 2)) for f in est.tucker_weight_[1]) + float(np.sum(np.asarray(est.tucker_weight_[0]) ** 2))
+                fit = float(np.sum((y - np.tensordot(X, np.asarray(est.weight_tensor_), axes=len(dims))) ** 2))
+                reg_objs[(tol_, nmax_)] = fit + reg * pen
+                return ("ok", [float(v) for v in est.norm_W_], int(est.n_iterations_))
         boundary = None
         if (it + it // len(names)) % 2 == 1 or name == "hals":
             # boundary tolerance from the trajectory of a run that does not stop
@@ -1808,6 +1819,17 @@ def run_stop_rules(ctx, n_runs):
         if alg not in (5, 6):      # (hals_nnls hands the squared norm of the update to its callback, the regressors record norms of the weight tensor)
             vals = tape if alg != 4 else [math.sqrt(max(e, 0.0) / (float(np.sum(X ** 2)) + float(np.sum(Y ** 2)))) for e in tape]
             history_check(ctx, entry, inputs, vals, what="error history of a run ended by its stopping rule")
+        if alg == 5:
+            # C07_cpreg_fit_descent / C07_tkreg_fit_descent on the implementation: the weights the fit RETURNS (wherever its stopping rule ended it) have a
+            # ridge objective not above the one after the first sweep (same seed => same trajectory)
+            o1 = call(tol, 1)
+            if o1[0] == "ok" and (tol, 1) in reg_objs and (tol, nmax) in reg_objs:
+                f1, fe = reg_objs[(tol, 1)], reg_objs[(tol, nmax)]
+                ctx.py_blocks += 1
+                chk.hist("history", entry + " / objective of the returned weights vs first sweep")
+                if not fe <= f1 + 1e-9 * (abs(f1) + float(np.sum(y ** 2))):
+                    chk.finding(entry, inputs, f"the weights returned after {iters} sweep(s) have ridge objective {fe!r}, above the objective {f1!r} after the first sweep",
+                                "C07_cpreg_fit_descent" if name == "cpreg" else "C07_tkreg_fit_descent", observed=fe, expected=f"<= {f1!r}")
         chk.count(key=("stopping rule", name, tol, nmax, iters), nontrivial=iters < nmax)
         chk.hist("stopping rule", name + (": fired" if iters < nmax else ": n_iter_max reached") + (" (boundary tolerance)" if boundary else ""))
         border = any(abs(stop_quantity(alg, abs_crit, tape[i], tape[i - 1], tape[0]) - tol) <= 1e-9 * max(tol, 1e-300) for i in range(1, len(tape))) or \
